@@ -517,7 +517,7 @@ func c01MultiDefs(c *lib.Ctx, idx uint64) {
 		ch := []lib.Chunker{{Kind: "whole"}, {Kind: "one"}, {Kind: "rand", Size: 5, R: rng, Zero: true}}[variant]
 		var opts []fit.DecodeOption
 		if variant > 0 {
-			opts = []fit.DecodeOption{fit.WithLogger(&countingLogger{}), fit.WithUnknownFields(), fit.WithUnknownMessages()}
+			opts = optionList(7, &countingLogger{}, idx)
 		}
 		var res lib.CallResult
 		o := lib.Guard(func() { res = lib.Call("Decode", lib.NewReader(b, ch), opts...) })
